@@ -6,6 +6,7 @@ SPEC = {
     "bins": ["c12"],
     "model_targets": ["Types/StructCheck.vo"],
     "proof_targets": ["Types/StructModelProofs.vo", "Types/ProtoSchemaProofs.vo"],
+    "generated_obligations": ["annotated_fields_ordinary"],
     "assumptions": [
         "hand-written model of Struct::from_proto_descriptor_and_msg / new_value / new_array / new_map*, emit_field_access and lookup_field / array indexing / map lookup, tied to the code by (1) the verdict comparison, (2) the field indexes read from the compiler's IR dump of every generated rule, which must equal the model's compile_path on the schema generated from the .proto sources, (3) equality of that generated schema with the descriptor obtained by reflection from the library",
         "field names are distinct from each other and from the generated enum/function/method field names (IndexMap::insert would replace instead of append); holds for every registered module or from_proto_descriptor_and_msg panics",
@@ -19,7 +20,12 @@ SPEC = {
                      "Intel-HEX/zip decoding of the module test samples in checks/C12.py"],
 }
 
-RULE = ("built-in modules (lnk, elf, macho, pe, dotnet, dex, crx: the smallest test samples of each) with the output computed by the module and, separately, the same output "
+RULE = ("every synthetic job is a SEQUENCE of three scans on one scanner: a message supplied through set_module_output, then no message (the module's own output must show), "
+        "then a different message through set_module_output_raw (and the reverse order of entry points); every built-in sample additionally runs supplied / computed / supplied-raw; "
+        "after each scan ScanResults::module_output / module_outputs must hand back the supplied message; functions that read the output message (test_proto2.get_foo, and for pe/elf/"
+        "macho/dex/crx a list of helper functions compared between computed and supplied output) are evaluated too; string and bytes values include upper/mixed case, padding, NUL, "
+        "non-UTF-8 bytes, and every string leaf is also read through .len(), contains, startswith, endswith and compared with its swapped-case / lower-cased / trimmed / NUL-truncated "
+        "variants; fields carrying yara options (lowercase, fmt, deprecation) are always populated. built-in modules (lnk, elf, macho, pe, dotnet, dex, crx: the smallest test samples of each) with the output computed by the module and, separately, the same output "
         "supplied through set_module_output; synthetic test_proto2 / test_proto3 messages built by reflection (every field: required always, optional with probability 0.3-0.8, "
         "repeated of length 0/1/2/3/6, maps with 0/1/2/4 entries incl. extreme int keys and empty/escaped string keys; values i32/i64/u32/u64 MIN/MAX/2^63, empty/long/non-ASCII/NUL "
         "strings and bytes, nested messages, enums). Per message up to 220 conditions over every field path: defined p, p == value, p == another value, absent fields, array "
@@ -86,7 +92,7 @@ def classify(case):
 
 def run_k(run, tier, seed, drv):
     samples = prepare_samples(drv)
-    n = 36 if tier == "quick" else 900
+    n = 16 if tier == "quick" else 400          # synthetic scan sequences (3 scans = 3 cases each)
     info = standard_k(run, drv, "C12", "c12", ["--seed", seed, "--n", n, "--samples", samples], "K_C12_struct_lookup", classify)
     info["rule"] = RULE
     return info
